@@ -78,7 +78,7 @@ def gen_script(rng, n):
 
 
 def check_C11(ctx):
-    ctx.build(["Properties/C11.vo"], "Properties/C11.v")
+    ctx.build(["Proofs/TieSync.vo", "Properties/C11.vo"], "Properties/C11.v")
     rng = random.Random(ctx.seed * 11003 + 11)
     g = Gen(rng, max_depth=2)
     inputs = dict(INPUT_CLASSES)
@@ -194,7 +194,7 @@ def probe_race(ctx, suite, cases, tag):
 
 
 def check_C12(ctx):
-    ctx.build(["Proofs/TieGlobals.vo", "Properties/C12.vo"], "Properties/C12.v")
+    ctx.build(["Proofs/TieGlobals.vo", "Proofs/TieSync.vo", "Properties/C12.vo"], "Properties/C12.v")
     rng = random.Random(ctx.seed * 12007 + 12)
     if not build_race(ctx):
         ctx.broken.append(("correspondence", "race-enabled build of the harness", "go build -race failed"))
